@@ -17,7 +17,7 @@ template <class T> static void run_T(Choice &c, Ctx &cx)
     auto pat = gen_pattern(c, m, n, PAT_NONSING, family);
     GMat G = gen_values(c, m, n, pat, cplx, single, family);
     Opts o = gen_opts(c, n, single, m == n, !direct);
-    IluOpts io; if (ilu) io = gen_ilu_opts(c);
+    IluOpts io; if (ilu) { io = gen_ilu_opts(c); route_ilu(io, cx); }
     if (direct) o.nr = false;
     cx.hash = fnv1a(c.d, c.consumed(), 0xC03ULL ^ ((uint64_t)Tr<T>::letter << 32));
     if (cx.dump) { cx.d(fmt("mode=%s m=%d n=%d", direct ? "sp_preorder+gstrf" : (ilu ? "gsisx" : "gssvx"), m, n)); cx.d(opts_str(o, !direct)); if (ilu) cx.d(ilu_str(io)); cx.d(gmat_str(G, cplx)); }
